@@ -183,6 +183,10 @@ class AirTouchSocket(Generic[comms.Hdr]):
             # Messages that were never sent must not go out on a later open.
             self._message_queue.clear()
             await self._disconnect()
+            if self.is_open and not self.is_connected:
+                # Opened again while the connection was still being closed. The
+                # connection attempt made then was ignored, so make it now.
+                self._schedule(self._connect())
 
     async def send(self, message: comms.Message, retry_policy: RetryPolicy) -> None:
         """Send a message to the AirTouch.
@@ -329,18 +333,19 @@ class AirTouchSocket(Generic[comms.Hdr]):
             )
 
             if not self.is_open:
-                # Closed while the connection was being established.
+                # Closed while the connection was being established. If the
+                # socket is opened again in the meantime, the check below
+                # schedules a new attempt.
                 await self._disconnect()
-                return
+            else:
+                self.is_connected = True
+                _LOGGER.debug("Connected to %s:%d", self.host, self.port)
+                await self._notify_connection_changed(connected=self.is_connected)
 
-            self.is_connected = True
-            _LOGGER.debug("Connected to %s:%d", self.host, self.port)
-            await self._notify_connection_changed(connected=self.is_connected)
+                # Send any buffered messages
+                await self._drain_message_queue()
 
-            # Send any buffered messages
-            await self._drain_message_queue()
-
-            self._schedule(self._read())
+                self._schedule(self._read())
         except OSError as ex:
             _LOGGER.debug("Unable to connect. Will try again later. Reason: %s", ex)
         finally:
